@@ -150,3 +150,25 @@ def value_space(leaves: List[Leaf], vmax_bits: int):
     if n <= (1 << vmax_bits):
         return "EXH", exhaustive(leaves)
     return "BASIS", basis(leaves)
+
+
+def big_vectors(leaves: List[Leaf]):
+    """Value vectors for messages with thousands of leaves (a basis would be quadratic): zero, ones, leaf k holds k,
+    leaf k holds k * 2654435761 (every bit position varies along the array), alternating bits, only the last leaf non-zero.
+    Deterministic patterns, reduced to each leaf's domain."""
+    def fit(l, x):
+        x &= (1 << l.width) - 1
+        if l.kind == "enum":
+            vals = [m for _, m in l.enum.members]
+            return x if x in vals else zero_of(l)
+        if l.kind == "bool":
+            return x & 1
+        if l.signed and (x >> (l.width - 1)) & 1:
+            x -= 1 << l.width
+        return x
+    zeros = [zero_of(l) for l in leaves]
+    last = list(zeros)
+    if leaves:
+        last[-1] = ones_of(leaves[-1])
+    return [zeros, [ones_of(l) for l in leaves], [fit(l, k) for k, l in enumerate(leaves)],
+            [fit(l, (k + 1) * 2654435761) for k, l in enumerate(leaves)], [fit(l, 0x5555555555555555 if k % 2 else 0xAAAAAAAAAAAAAAAA) for k, l in enumerate(leaves)], last]
